@@ -149,6 +149,9 @@ func (p *Prog) addFile(f *spec.File) error {
 	}
 	for _, fc := range f.Funcs {
 		key := p.expandKey(fc.Key, f)
+		if fc.FuncType {
+			key = "functype " + key
+		}
 		if _, dup := p.Contracts[key]; dup {
 			return fmt.Errorf("%s: duplicate contract for %s", f.Path, key)
 		}
@@ -368,6 +371,33 @@ func (p *Prog) SrcLine(pos token.Pos) string {
 		return strings.TrimSpace(lines[ps.Line-1])
 	}
 	return ""
+}
+
+// GlobalInitFunc: if g is a package-level variable of function type that is initialised with a
+// function in its package initialiser and never stored to afterwards, that function.
+func (p *Prog) GlobalInitFunc(g *ssa.Global) *ssa.Function {
+	if g.Pkg == nil || !p.ImmutableGlobal(g) {
+		return nil
+	}
+	var found *ssa.Function
+	for _, m := range g.Pkg.Members {
+		fn, ok := m.(*ssa.Function)
+		if !ok || fn.Name() != "init" {
+			continue
+		}
+		for _, b := range fn.Blocks {
+			for _, in := range b.Instrs {
+				if st, ok := in.(*ssa.Store); ok && st.Addr == ssa.Value(g) {
+					if f, ok := st.Val.(*ssa.Function); ok {
+						found = f
+					} else {
+						return nil
+					}
+				}
+			}
+		}
+	}
+	return found
 }
 
 // ImmutableGlobal reports whether a package-level variable is never stored to
